@@ -24,6 +24,26 @@ DATA = ['', 'x', 'hello', ' ', '  \n', 'a&b<c', 'é€', '0123456789', 'ab', ']]
 ENTNAMES = ['e1', 'e2', 'nope', '1x']
 PITARGETS = ['p', 'xml-stylesheet', 'q', '1p']
 SIZE_MAX = 2 ** 64 - 1
+
+# ---- ID values that collide in DOMNodeIDMap (open addressing, slot = step = XMLString::hash(id, size-1)+1, sizes 997 -> 9973)
+def xml_hash(s, modulus):
+    if not s: return 0
+    h = ord(s[0])
+    for ch in s[1:]: h = ((h * 38) + (h >> 24) + ord(ch)) & 0xFFFFFFFFFFFFFFFF
+    return h % modulus
+def _collision_pool():
+    cand = [p + str(i) for i in range(260) for p in ('sec-', 'fig-', 'n', 'id', 't_', 'tab.', '\u00e9')]
+    out = []
+    for size, per, groups in ((997, 4, 6), (9973, 2, 5)):
+        buckets = {}
+        for v in cand: buckets.setdefault(xml_hash(v, size - 1) + 1, []).append(v)
+        good = sorted((k, vs) for k, vs in buckets.items() if len(vs) >= per and len(set(x.rstrip('0123456789') for x in vs[:per + 2])) >= 2)
+        for k, vs in good[:groups]: out.extend(x for x in vs[:per] if x not in out)
+    return out
+IDVALS = _collision_pool()
+HIDDEN_PREFIX = 'hb-'
+IDQ = IDVALS + [HIDDEN_PREFIX + '0', HIDDEN_PREFIX + '1', HIDDEN_PREFIX + '299', HIDDEN_PREFIX + '799', 'nope-1', 'zz', 'x']
+ID_OPS = [('idset', 5), ('idon', 5), ('idoff', 2), ('idrm', 3), ('idran', 2), ('idonn', 1), ('idbulk', 1)]
 TAGQ = ['a', 'b', '*', 'k', 'p:a', 'r', 'zz']
 TAGQNS = [('*', '*'), ('urn:x', 'a'), ('urn:x', '*'), ('*', 'a'), (None, 'a'), (None, '*'), ('urn:y', 'b')]
 
@@ -35,9 +55,12 @@ def doc0_text(flags):
     if flags & 2: dtd.append('<!ENTITY e2 "<k>in</k>tail">')
     if flags & 4: dtd.append('<!ATTLIST a d1 CDATA "dv1">')
     if flags & 64: dtd.append('<!NOTATION n1 SYSTEM "urn:n1">')
+    if flags & 128: dtd.append('<!ATTLIST r id ID #IMPLIED><!ATTLIST a id ID #IMPLIED>')     # DTD-declared ID attributes (values of one probe chain)
     body = '<r><a x="1">t1%s<b/></a><!--c-->%s<a/>%s%stail</r>' % (
         '&e1;' if flags & 1 else '', '<?p d?>' if flags & 16 else '', '&e2;' if flags & 2 else '', '<![CDATA[cd]]>' if flags & 8 else '')
     if flags & 32: body = body.replace('<b/>', '<b><p:a xmlns:p="urn:x" p:k="v"><c/>deep</p:a></b>')
+    if flags & 128:
+        body = body.replace('<r>', '<r id="%s">' % IDVALS[0], 1).replace('<a x="1">', '<a x="1" id="%s">' % IDVALS[1], 1).replace('<a/>', '<a id="%s"/>' % IDVALS[2], 1)
     text = ('<!DOCTYPE r [%s]>' % ''.join(dtd) if dtd else '') + body
     return text.encode('utf-8'), ({'a': [('d1', 'dv1')]} if flags & 4 else None)
 
@@ -62,7 +85,7 @@ RETKIND = dict(cel='node', celns='node', ctx='node', ccm='node', ccd='node', cpi
                itn='node', itp='node', twpa='node', twfc='node', twlc='node', twps='node', twns='node', twpn='node', twnn='node', rext='node', rcln='node')
 
 class Step(object):
-    __slots__ = ('line', 'res', 'crc', 'len', 'labels', 'ret_id', 'vcrc', 'vstate', 'opname')
+    __slots__ = ('line', 'res', 'crc', 'len', 'labels', 'ret_id', 'vcrc', 'vstate', 'opname', 'idx')
 
 class Excluded(Exception):
     def __init__(self, fid): Exception.__init__(self, fid); self.fid = fid
@@ -72,6 +95,7 @@ class Hist(object):
     def __init__(self, world, optable, active_excl, with_views=False):
         self.w = world; self.ops = optable; self.excl = set(active_excl); self.steps = []; self.excluded = collections.Counter()
         self.with_views = with_views; self.labels = set(); self.inserted_parents = set(); self.tainted = set()
+        self.idq = False    # compare a sample of getElementById lookups after every step
         self.gen = 1        # version of the integer -> offset/count mapping (stored cases without 'gen' keep the old mapping)
 
     # ---- offsets and counts (XMLSize_t is a 64-bit unsigned type; the harness static_asserts that) ---------------
@@ -223,6 +247,10 @@ class Hist(object):
                 # known finding: an element made by cloneNode does not get DTD defaults back
                 self.excl_check('C13-clone-loses-defaults', at is not None and e.cloned and not e.readonly and any(an == at.name for an, _ in w.default_attrs(e.doc, e.name)))
             if op == 'rat': nm = attrname(b); defaults_lost((w._find_attr(e, nm) or [None])[0]); return 'rat\t%s\t%s' % (I(e), esc(nm)), w.removeAttribute(e, nm)
+            if op == 'ratns':
+                ns, ln = attrns(b); _f = w._find_attr_ns(e, ns, ln)
+                # known finding: removeAttributeNS releases the Attr without taking it out of the document's ID table
+                self.excl_check('C14-removeAttributeNS-keeps-id', bool(_f) and bool(_f[0].isid) and not e.readonly)
             if op == 'ratns': ns, ln = attrns(b); defaults_lost((w._find_attr_ns(e, ns, ln) or [None])[0]); return 'ratns\t%s\t%s\t%s' % (I(e), esc(ns), esc(ln)), w.removeAttributeNS(e, ns, ln)
             if op in ('san', 'sanns', 'ran'):
                 sel, idx = b % 4, b // 4
@@ -311,6 +339,28 @@ class Hist(object):
             if any(x.t == EL and (len(set(y.name for y in x.attrs)) != len(x.attrs) or len(set((y.ns, y.local) for y in x.attrs if y.local is not None)) != len([y for y in x.attrs if y.local is not None])) for x in (dm.subtree(n) if deep else [n])):
                 return None      # element whose attribute set mixes Level 1 / namespace-aware duplicates: outside the domain
             return 'imp\t%s\t%s\t%d' % (I(doc), I(n), deep), w.importNode(doc, n, bool(deep))
+        if op in ('idset', 'idon', 'idoff', 'idrm', 'idran', 'idonn', 'idbulk'):
+            L.add('id-ops')
+            if op == 'idbulk':
+                doc = self.doc(a); n = (300, 800, 40)[b % 3]
+                if doc.id in w.hidden_ids: return None          # once per document (the values must stay unique)
+                w.hidden_ids[doc.id] = set(HIDDEN_PREFIX + str(i) for i in range(n))
+                if n >= 798: L.add('id-table-grown')
+                return 'idbulk\t%s\t%d\t%s' % (I(doc), n, HIDDEN_PREFIX), Res.ok()
+            sel, idx = a % 4, a // 4
+            withid = [x for x in self.live() if x.t == EL and any(y.name == 'id' for y in x.attrs)]
+            e = self.pick(withid, idx) if (sel < 3 and withid and op != 'idset') or (sel == 0 and withid) else self.of_type((EL,), idx)
+            if e is None: return None
+            at = next((y for y in e.attrs if y.name == 'id'), None)
+            if op == 'idset':
+                v = IDVALS[b % len(IDVALS)]
+                if at is not None and not e.readonly: self.removal_hook('attrval', e, None, None)
+                return 'sat\t%s\tid\t%s' % (I(e), esc(v)), w.setAttribute(e, 'id', v)
+            if op in ('idon', 'idoff'): return 'sid\t%s\tid\t%d' % (I(e), op == 'idon'), w.setIdAttribute(e, 'id', op == 'idon')
+            if op == 'idrm': return 'rat\t%s\tid' % I(e), w.removeAttribute(e, 'id')
+            if at is None: return None
+            if op == 'idran': return 'ran\t%s\t%s' % (I(e), I(at)), w.removeAttributeNode(e, at)
+            if op == 'idonn': return 'sidn\t%s\t%s\t%d' % (I(e), I(at), 1 - b % 4 // 3), w.setIdAttributeNode(e, at, b % 4 != 3)
         return self.concretise_ext(op, ab)
 
     def concretise_ext(self, op, ab):
@@ -369,6 +419,25 @@ class Hist(object):
                 t3 = mk('ctx\t%s\t0123456789' % I(d), w.createTextNode(d, '0123456789'))
                 app(f, e); app(f, t3)
 
+    def id_prelude(self, kind):
+        """ID attributes on the elements built so far, with values from the colliding pool; optionally a few hundred hidden
+        filler ids (kind 2: 300 before, kind 3: 800 after -> the table grows from 997 to 9973 slots and is rehashed)"""
+        w = self.w
+        if not kind: return
+        self.idq = True
+        if kind == 2:
+            w.hidden_ids[w.docs[0].id] = set(HIDDEN_PREFIX + str(i) for i in range(300))
+            self.emit(('idbulk\t%d\t300\t%s' % (w.docs[0].id, HIDDEN_PREFIX), Res.ok()))
+        els = [x for x in self.live() if x.t == EL and not x.readonly][:len(IDVALS)]
+        for i, e in enumerate(els):
+            v = IDVALS[(i + 4 * kind) % len(IDVALS)]      # neighbours in the pool share one probe chain
+            if 'C14-iterator-unstepped-removechild' in self.excl and any(y.name == 'id' for y in e.attrs): continue
+            self.emit(('sat\t%d\tid\t%s' % (e.id, esc(v)), w.setAttribute(e, 'id', v)))
+            self.emit(('sid\t%d\tid\t1' % e.id, w.setIdAttribute(e, 'id', True)))
+        if kind == 3:
+            w.hidden_ids[w.docs[0].id] = set(HIDDEN_PREFIX + str(i) for i in range(800)); self.labels.add('id-table-grown')
+            self.emit(('idbulk\t%d\t800\t%s' % (w.docs[0].id, HIDDEN_PREFIX), Res.ok()))
+
     # ---- run --------------------------------------------------------------------------------------
     def run(self, abstract_ops):
         for ab in abstract_ops:
@@ -393,6 +462,7 @@ class Hist(object):
             w.discover(ret)
             st.ret_id = ret.id if ret is not None else None
             st.crc, st.len = w.dump_crc()
+            st.idx = [[w.id_expect(d, v) for v in IDQ] for d in w.docs] if self.idq else None
             if self.with_views: st.vstate = w.view_state(); st.vcrc = '%08x' % (zlib.crc32(st.vstate.encode('ascii')) & 0xFFFFFFFF)
             else: st.vstate = None; st.vcrc = None
             self.steps.append(st)
@@ -440,6 +510,7 @@ def execute(ex, setup, steps, full=False, views=False):
     if setup.get('flags') is not None: req['doc0'] = doc0_text(setup['flags'])[0]
     if full: req['full'] = '1'
     if views: req['views'] = '1'
+    if any(s.idx is not None for s in steps): req['ids'] = '\n'.join(esc(v) for v in IDQ)
     return ex.request(req, timeout=300)
 
 def parse_response(resp):
@@ -486,12 +557,25 @@ def compare(steps, resp_steps, init_crc, views=False):
             return 'step %d (%s): structural dump differs from the model (outcome %s)' % (i, st.line.replace('\t', ' '), got), i, diverged
         if views and len(f) > 6 and f[6] != st.vcrc:
             return 'step %d (%s): state of the live views differs from the model (outcome %s)' % (i, st.line.replace('\t', ' '), got), i, diverged
+        if st.idx is not None:
+            for gl in resp_steps[i][1]:
+                if not gl.startswith('G\t'): continue
+                g = gl.split('\t'); di = int(g[1])
+                for q, want in enumerate(st.idx[di]):
+                    if want is not None and g[2 + q] != want:
+                        return 'step %d (%s): getElementById(%r) on document %d returns %s, the model expects %s' % (
+                            i, st.line.replace('\t', ' '), IDQ[q], di, g[2 + q], want), i, diverged
         prev_crc = crc
     return None, None, diverged
 
 
 def model_world(init_dump, setup):
-    return dm.World.from_init(init_dump, setup['ndocs'], doc0_text(setup['flags'])[1] if setup.get('flags') is not None else None)
+    w = dm.World.from_init(init_dump, setup['ndocs'], doc0_text(setup['flags'])[1] if setup.get('flags') is not None else None)
+    if setup.get('flags') is not None and setup['flags'] & 128:
+        for n in w.nodes:       # the parser registers attributes of DTD type ID
+            if n.t == AT and n.name == 'id' and n.owner is not None and n.owner.name in ('r', 'a') and n.doc is w.docs[0] and not n.owner.readonly:
+                n.isid = True; w.idattrs.append(n)
+    return w
 
 def run_case(case, ex, optable, views=False, hist_cls=None):
     """one history: model first, then the executor, then the per-step comparison -> (ok, detail, hist)"""
@@ -506,7 +590,8 @@ def run_case(case, ex, optable, views=False, hist_cls=None):
     w = model_world(init_dump, setup)
     crc0 = '%08x' % (zlib.crc32(w.dump().encode('ascii')) & 0xFFFFFFFF)
     h = hist_cls(w, optable, case.get('excl', []), with_views=views); h.gen = case.get('gen', 1)
-    h.prelude(setup.get('pre', 0))
+    h.idq = bool(case.get('idq'))
+    h.prelude(setup.get('pre', 0)); h.id_prelude(setup.get('idpre', 0))
     steps = h.run(case['ops'])
     try:
         resp = execute(ex, setup, steps, views=views)
@@ -542,7 +627,8 @@ def run_case(case, ex, optable, views=False, hist_cls=None):
         got_dump = '(executor died while re-running for the dump)'
     w2 = model_world(init_dump, setup)
     h2 = hist_cls(w2, optable, case.get('excl', []), with_views=views); h2.gen = case.get('gen', 1)
-    h2.prelude(setup.get('pre', 0)); npre = len(h2.steps)
+    h2.idq = bool(case.get('idq'))
+    h2.prelude(setup.get('pre', 0)); h2.id_prelude(setup.get('idpre', 0)); npre = len(h2.steps)
     h2.run(case['ops'][:max(0, at + 1 - npre)])
     mdump = w2.dump() + (w2.view_state() if views else '')
     hist = '\n'.join('%3d %-40s -> model %s%s' % (i, s.line.replace('\t', ' '), expected_outcome(s), ' [unspecified: %s]' % s.res.unspec if s.res.unspec else '')
